@@ -43,7 +43,9 @@ class SortedMap(MutableMapping[K, T], Generic[K, T]):
                 self.keys_storage = list(init_values.keys())
                 values = list(init_values.values())
             else:
-                self.keys_storage, values = zip(*init_values)
+                init_values = dict(init_values)  # later pairs win, like dict()
+                self.keys_storage = list(init_values.keys())
+                values = list(init_values.values())
             # sort keys
             sorted_indices = arg_sort(self.keys_storage)
 
